@@ -4,7 +4,8 @@ from vlib.core import Case, BUILD
 
 ID = "C17"
 LEAN_MODULE = "Ctrmml.Properties.C17"
-THEOREMS = ["C17_stepR_erase"]
+THEOREMS = ["C17_stepR_erase", "C17_error_ref_is_fetched_command", "C17_missing_call_is_faulty_command", "C17_reference_on_chain",
+            "C17_structural_error_ref", "C17_event_ref_is_command_start", "C17_unknown_command_column"]
 LEVEL = "proof"
 STREAM = "diag.what"
 CHUNK = 250
@@ -704,8 +705,20 @@ def shrink(req):
 
 TECHNIQUE = ("Lean 4 proof (invariants of the reader loop and of the player/validator/converter wrappers that carry the reference) + "
              "fault injection with a known token map: model<->real pipeline correspondence on what() and the spec clauses on the real messages")
-LEVEL_TEXT = ""
-LEVEL_NOTE = ""
+LEVEL_TEXT = ("Machine-checked theorems over Lean models of the reader (input.cpp, mml_input.cpp) and of the reference that Basic_Player carries "
+              "(player.cpp) through Song_Validator and the MDSDRV writer: the reference stamped on a command is the position of its first non-blank "
+              "character; an 'unknown MML command' error is raised at exactly the offending character; a player error carries the reference of the "
+              "command fetched by the failing step (a missing call target: the JUMP itself); at every reachable player state the reference is the "
+              "position of a command on the current track or on a track recorded in a stack frame (a caller), hence so is every structural error of a "
+              "validation run. The column bound for ALL parse_error sites (first character <= column <= line length + 2) and the converter-side "
+              "statements (missing/wrong instrument, note range: the command itself on a channel track, the calling JUMP for a subroutine) are NOT proved "
+              "as theorems: they rest on the fault-injection check (the property's clauses evaluated by Spec/Diag on the real what() text for one fault "
+              "of each of 13 kinds at every command position) together with model<->code agreement on every message. Two defects were found and "
+              "repaired (152f2d8: reference stayed in the subroutine after a return; 0680dc7: '%n' events carried a stale or no reference).")
+LEVEL_NOTE = ("Trusted: Lean kernel (propext, Classical.choice, Quot.sound at most), the hand-written models Model/Lexer, Model/Mml (+ Model/MmlFix: the '%' branch "
+              "after fix 0680dc7), Model/Player, Model/MdsConv and the wrappers of Model/Refs (agreement with the C++ established by differential testing on "
+              "stage + what() of the whole pipeline, not proved), Spec/Diag (my reading of the property), the generator's token map. "
+              "C17_full_statement_parse_error_column is kept as a definition and is not proved.")
 RULE = ("valid songs (FM/PSG/PCM channel tracks, subroutine tracks, loops with breaks, calls, instruments, loop point; single-/multi-line with "
         "continuation or repeated track list; single-/multi-track lines with conditional blocks) with ONE injected fault of each of 13 kinds at EVERY "
         "command position (hand-written songs and small random songs) or at sampled positions (large songs); the request carries the generator's "
